@@ -68,6 +68,10 @@ def _pools():
         'intGO': ([3, 1, 2, -5], lambda ls: sf.IndexGO(ls, dtype=np.int64)),
         'float': ([1.5, -2.0, 3.0, 0.25], lambda ls: sf.Index(ls, dtype=np.float64)),
         'str': (['b', 'a', 'cc', ''], lambda ls: sf.Index(ls, dtype='<U2')),
+        # the same labels held with a narrower / wider array dtype (identical operands as far as labels go)
+        'int32': ([3, 1, 2, -5], lambda ls: sf.Index(ls, dtype=np.int32)),
+        'strU1': (['b', 'a', 'c', 'd'], lambda ls: sf.Index(ls, dtype='<U1')),
+        'strU3': (['b', 'a', 'c', 'd'], lambda ls: sf.Index(ls, dtype='<U3')),
         'obj': ([2, 'a', None, 1.5], lambda ls: sf.Index(ls, dtype=object)),
         'objstr': (['b', 'a', 'cc', 'd'], lambda ls: sf.Index(ls, dtype=object)),
         'tuple': ([(1, 'a'), (2, 'b'), (1, 'b'), (0, 'z')], lambda ls: sf.Index(ls) if ls else sf.Index((), dtype=object)),
@@ -89,7 +93,8 @@ def _pools():
 SET_PAIRS_QUICK = [('int', 'int'), ('str', 'str'), ('obj', 'obj'), ('tuple', 'tuple'), ('date', 'date'), ('ih2', 'ih2'),
                    ('int', 'float'), ('float', 'int'), ('int', 'str'), ('str', 'obj'), ('obj', 'int'), ('intGO', 'int'),
                    ('bool', 'bool'), ('float', 'float'), ('objstr', 'str'), ('second', 'second'), ('ih2i', 'ih2i'), ('ih3', 'ih3'),
-                   ('month', 'month'), ('dt64', 'dt64'), ('dt64', 'date'), ('ih2GO', 'ih2'), ('ihdate', 'ihdate')]
+                   ('month', 'month'), ('dt64', 'dt64'), ('dt64', 'date'), ('ih2GO', 'ih2'), ('ihdate', 'ihdate'),
+                   ('int32', 'int'), ('int', 'int32'), ('strU1', 'strU3'), ('strU3', 'strU1'), ('str', 'objstr')]
 SET_PAIRS_THOROUGH_ONLY = {('month', 'month'), ('second', 'second'), ('ih2GO', 'ih2'), ('float', 'int'), ('dt64', 'dt64')}
 SET_FUNCS = ('union', 'intersection', 'difference')
 
